@@ -42,10 +42,12 @@ example : canRunInPlace [1, 3] [2, 1] = false ∧ broadcastShapes [1, 3] [2, 1] 
 positional map: no element is read after it was overwritten. -/
 theorem c13_in_place_loop {α β : Type} (f : α → β → α) (a : List α) (bs : List β)
     (h : a.length ≤ bs.length) :
-    inPlaceLoop f (fun i => bs[i]?) 0 a.length a = List.zipWith f a bs :=
+    inPlaceLoop f (fun i => bs[i]?) 0 a.length a = some (List.zipWith f a bs) :=
   inPlaceLoop_eq_zipWith f bs a h
 
-example : inPlaceLoop (fun x y => x * 10 + y) (fun i => [7, 8, 9][i]?) 0 3 [1, 2, 3] = [17, 28, 39] := by decide
+example : inPlaceLoop (fun x y => x * 10 + y) (fun i => [7, 8, 9][i]?) 0 3 [1, 2, 3] = some [17, 28, 39] := by decide
+/-- A too short `b` is the panic case (excluded by the hypothesis of T1b). -/
+example : inPlaceLoop (fun x y => x * 10 + y) (fun i => [7, 8][i]?) 0 3 [1, 2, 3] = none := by decide
 
 /-- **T1.** Running a binary operator in place on the owned operand `a` — in-place branch or
 out-of-place fallback — gives exactly the normal `binary_op` result, for every element function. -/
@@ -62,7 +64,7 @@ theorem c13_run_in_place_eq_run {α β : Type} (f : α → β → α) (a : Tens 
       exact Nat.le_refl _
     unfold binop binopInPlace
     rw [hshape, Option.map_some, bcastTo_self a.data a.shape ha,
-      inPlaceLoop_eq_zipWith f _ a.data (by rw [hlenB, ha]; exact Nat.le_refl _)]
+      inPlaceLoop_eq_zipWith f _ a.data (by rw [hlenB, ha]; exact Nat.le_refl _), Option.map_some]
   · rfl
 
 example : runInPlace (· + ·) (⟨[2, 2], [1, 2, 3, 4]⟩ : Tens Nat) ⟨[2], [10, 20]⟩ =
@@ -195,6 +197,33 @@ theorem c13_graph_exec_eq_run {α : Type} (f : α → α → α) (ips : List Nat
     have : (fun y x => f x y) = f := by funext y x; exact hcomm hc x y
     rw [this]
   · rfl
+
+/-- The literal `in_place_inputs` index set of an operator (generated from the source). -/
+def inPlaceIdxOf (op : String) : List Nat :=
+  ((RtenVerif.Generated.InPlaceOps.inPlaceIdx.find? (fun p => p.1 == op)).map (·.2)).getD []
+
+/-- **E0 (machine-checked side condition of E2).** Every operator flagged commutative, and every
+binary element-wise operator with an in-place path, declares operand 0 — and only operand 0 —
+as its in-place input (decided on the table extracted from src/ops by the translator). -/
+theorem c13_binary_ops_in_place_operand_zero :
+    ∀ op ∈ RtenVerif.Generated.InPlaceOps.commutativeOps ++ ["Sub", "Div", "Pow"],
+      ∀ i ∈ inPlaceIdxOf op, i = 0 := by decide
+
+/-- Non-vacuity: the table has the entries (and E0 would fail for an operator like `Attention`). -/
+example : inPlaceIdxOf "Add" = [0] ∧ inPlaceIdxOf "Sub" = [0] ∧ inPlaceIdxOf "And" = [] ∧
+    inPlaceIdxOf "Attention" = [4, 5] := by decide
+
+/-- **E2 for the operators of the source.** For every operator flagged commutative that has a value
+model, with its in-place set as declared in the source, whatever the executor decides, the node's
+result is the out-of-place result. -/
+theorem c13_graph_exec_flagged_ops :
+    ∀ op ∈ RtenVerif.Generated.InPlaceOps.commutativeOps, ∀ f, binFn op = some f →
+      ∀ (a b : Tens Int) (ownA ownB shared : Bool), a.WF → b.WF →
+        graphExec f (inPlaceIdxOf op) true a b ownA ownB shared = binop f a b := by
+  intro op hop f hf a b ownA ownB shared ha hb
+  exact c13_graph_exec_eq_run f _ true
+    (c13_binary_ops_in_place_operand_zero op (List.mem_append_left _ hop))
+    (fun _ => c13_flagged_commutative_ops_commute op hop f hf) a b ownA ownB shared ha hb
 
 /-- The swap really happens (non-vacuity of the second branch): `Add`-like node, larger owned
 second operand → in place on operand 1; a borrowed larger operand counts as length 0. -/
